@@ -89,6 +89,8 @@ def cases(c):
         for i in range(n):
             cplx = int(i % 2 == 0)
             N = int(gen.pick(rng, [16, 17, 24, 31, 32, 33, 48, 63, 64]))
+            if i % 40 == 39 and cls in ('Periodogram', 'pburg', 'pyule', 'pcorrelogram'):
+                N = int(gen.pick(rng, [513, 600, 777, 1025]))          # long records, long grids
             kind = gen.pick(rng, [None, 'nextpow2', N + 2 * int(rng.integers(0, 9)) + (N % 2),
                                   N + 2 * int(rng.integers(0, 9)) + 1 - (N % 2), gen.next_prime(N + 1)])
             NFFT = resolve_nfft(kind, N)
